@@ -9,4 +9,5 @@ CONSTANTS
   Junk = 34
   EmitOn = TRUE
 INVARIANTS ResumeEqFresh Idempotent StableM OffsSane Emit EmitTwo EmitByte
+PROPERTY MonotoneCont
 CHECK_DEADLOCK FALSE
